@@ -10,6 +10,7 @@ import (
 
 	"gitee.com/Trisia/gotlcp/vs"
 
+	"verifsim/peer"
 	"verifsim/ref"
 	"verifsim/simnet"
 )
@@ -29,6 +30,9 @@ type c05Params struct {
 	// HalfClosed: the receiving application has shut down its own write side (CloseWrite) before the damaged
 	// records arrive - it can no longer send an alert, but must fail and stay failed all the same
 	HalfClosed bool `json:"half_closed,omitempty"`
+	// PadBlocks > 0: the sender is the scripted reference endpoint, which pads its CBC records with that many
+	// blocks more than the minimum (legal: the padding length byte allows up to 255); the receiver is the library
+	PadBlocks int `json:"pad_blocks,omitempty"`
 }
 
 func (c05) ID() string    { return "C05" }
@@ -129,6 +133,35 @@ func c05List(tier string) []c05Params {
 			q.HalfClosed = true
 			out = append(out, q)
 		}
+		// long padding: every position of a record sent by the reference endpoint with extra padding blocks
+		for _, suite := range suites {
+			if !IsCBC(suite) {
+				continue
+			}
+			for dir := 0; dir < 2; dir++ {
+				for _, pb := range []int{3, 15} {
+					if pb == 15 && ti == 0 && dir == 1 {
+						continue
+					}
+					L := 32
+					wl := recWireLen(suite, L) + 16*pb
+					add := func(f simnet.RFault) {
+						f.Dir, f.Type = dir, ref.RecAppData
+						out = append(out, c05Params{Suite: suite, Dir: dir, N: 3, Len: L, Faults: []simnet.RFault{f}, PadBlocks: pb})
+					}
+					add(simnet.RFault{N: 99, Kind: simnet.RDrop}) // control: nothing fires, everything must arrive
+					for off := 0; off < wl; off++ {
+						masks := []byte{0x01}
+						if ti == 1 {
+							masks = []byte{0x01, 0x80, 0xff}
+						}
+						for _, m := range masks {
+							add(simnet.RFault{N: 1, Kind: simnet.RFlip, Off: off, Mask: m})
+						}
+					}
+				}
+			}
+		}
 		if ti == 1 {
 			// multi-fault plans are drawn in Run from the case seed (Faults == nil)
 			for i := 0; i < 6000; i++ {
@@ -228,13 +261,30 @@ func (c05) Run(c *Case, src *vs.Src) *Result {
 		cc.Certs = []string{"client_sig", "client_enc"}
 		sc.WrapKeys = true
 	}
-	pair := NewPair(TLCP, env, cc, sc, "c", "s", "client:1", "server:443")
-	pair.Pipe.C.Seg, pair.Pipe.S.Seg = p.Seg, p.Seg
 	mitm := simnet.NewRecordMITM(p.Dir, p.Faults)
-	pair.Pipe.SetFilter(p.Dir, mitm)
-	sender, receiver := pair.C, pair.S
-	if p.Dir == 1 {
-		sender, receiver = pair.S, pair.C
+	var pair *Pair
+	var sender, receiver EP
+	var half *Half
+	if p.PadBlocks > 0 {
+		// direction 0: the library is the server and reads what the scripted client sends
+		if p.Dir == 0 {
+			sc.ClientCAs = []string{"ca1"}
+			half = NewHalf(TLCP, env, sc, false, "real")
+			half.Peer.OwnEncKey = sm2Key("client_enc")
+		} else {
+			half = NewHalf(TLCP, env, cc, true, "real")
+			half.Peer.OwnEncKey = sm2Key("server_enc")
+		}
+		half.Pipe.SetFilter(p.Dir, mitm)
+		receiver = half.Real
+	} else {
+		pair = NewPair(TLCP, env, cc, sc, "c", "s", "client:1", "server:443")
+		pair.Pipe.C.Seg, pair.Pipe.S.Seg = p.Seg, p.Seg
+		pair.Pipe.SetFilter(p.Dir, mitm)
+		sender, receiver = pair.C, pair.S
+		if p.Dir == 1 {
+			sender, receiver = pair.S, pair.C
+		}
 	}
 	var sHS, rHS error
 	var got []byte
@@ -242,6 +292,43 @@ func (c05) Run(c *Case, src *vs.Src) *Result {
 	var later []string
 	reads := 0
 	w.Go("sender", func() {
+		if half != nil {
+			o := &peer.Opts{Suites: []uint16{p.Suite}}
+			var ops []string
+			if p.Dir == 1 {
+				o.Certs, o.SigKey, o.EncKey, o.CAs = ders("server_sig", "server_enc"), sm2Key("server_sig"), sm2Key("server_enc"), subjects("ca1")
+				ops = []string{"rCH", "SH", "CERT", "SKX"}
+				if IsECDHE(p.Suite) {
+					ops = append(ops, "CR")
+				}
+				ops = append(ops, "SHD", "rFLIGHT", "CCS", "FIN")
+			} else {
+				o.SNI = "server.test"
+				ops = []string{"CH", "rFLIGHT"}
+				if IsECDHE(p.Suite) {
+					o.Certs, o.SigKey = ders("client_sig", "client_enc"), sm2Key("client_sig")
+					ops = append(ops, "CERT", "CKE", "CV")
+				} else {
+					ops = append(ops, "CKE")
+				}
+				ops = append(ops, "CCS", "FIN", "rFLIGHT")
+			}
+			if out := half.Peer.Run(o, ops); out.Err != nil || !out.Completed {
+				sHS = fmt.Errorf("scripted handshake: completed=%v at %s: %v", out.Completed, out.StoppedAt, out.Err)
+				half.ClosePeerSide()
+				return
+			}
+			half.Peer.SetWritePad(p.PadBlocks)
+			for i := 0; i < p.N; i++ {
+				if err := half.Peer.SendApp(c05Record(i, p.Len)); err != nil {
+					break
+				}
+			}
+			half.Peer.SetWritePad(0)
+			half.Peer.SendAlert(1, 0)
+			half.ClosePeerSide()
+			return
+		}
 		if sHS = sender.Handshake(); sHS != nil {
 			sender.Close()
 			return
@@ -290,6 +377,9 @@ func (c05) Run(c *Case, src *vs.Src) *Result {
 	sigp := fmt.Sprintf("C05 %s dir%d", SuiteName(p.Suite), p.Dir)
 	if p.HalfClosed {
 		sigp += " half-closed"
+	}
+	if p.PadBlocks > 0 {
+		sigp += " long-padding"
 	}
 	w.Finish(r, sigp)
 	pj, _ := json.Marshal(p)
@@ -343,7 +433,7 @@ func (c05) Run(c *Case, src *vs.Src) *Result {
 		}
 	}
 	// CBC: ciphertext damage answered by bad_record_mac
-	if IsCBC(p.Suite) && !p.HalfClosed && len(fired) == 1 && fired[0].Kind == simnet.RFlip && fired[0].Off%recWireLen(p.Suite, p.Len) >= 5 {
+	if IsCBC(p.Suite) && !p.HalfClosed && pair != nil && len(fired) == 1 && fired[0].Kind == simnet.RFlip && fired[0].Off%recWireLen(p.Suite, p.Len) >= 5 {
 		sec := &ref.Secrets{KeyFor: keyResolver("server_sig", "server_enc", "client_sig", "client_enc"), Eph: env.KeyOps.Eph, Sessions: map[string][]byte{}}
 		v := ref.Observe(false, pair.WireUnits(true), sec)
 		rev := 1 - p.Dir
